@@ -479,4 +479,52 @@ theorem manly_hasDerivAt_band (p : Par ℝ) (x : ℝ) (hc : c0 p = true) :
   have hf : normRaw .manly p = fun x => x := by funext z; rw [normRaw_manly]; simp [hc]
   rw [hf]; exact hasDerivAt_id x
 
+/-! ### sums, mean, variance, Gaussian log-likelihood -/
+
+theorem foldl_add (l : List ℝ) (a : ℝ) : l.foldl (· + ·) a = a + l.sum := by
+  induction l generalizing a with
+  | nil => simp
+  | cons x t ih => simp [List.foldl_cons, ih, add_assoc]
+
+theorem sum_eq (l : List ℝ) : Model.Norm.sum l = l.sum := by
+  simp [Model.Norm.sum, foldl_add]
+
+theorem mean_eq (l : List ℝ) : Model.Norm.mean l = l.sum / l.length := by
+  simp [Model.Norm.mean, sum_eq]
+
+theorem var_eq (l : List ℝ) :
+    Model.Norm.var l = (l.map fun y => (y - l.sum / l.length) ^ 2).sum / l.length := by
+  simp only [Model.Norm.var, sum_eq, mean_eq]
+  congr 2; apply List.map_congr_left; intro y _; ring
+
+theorem fmax_of_le {a b : ℝ} (h : a ≤ b) : fmax a b = b := by
+  unfold fmax; split
+  · rfl
+  · exact le_antisymm h (not_lt.mp ‹_›)
+
+/-- `Σ (c - (f x - μ)²/(2v) + h x) = n c - Σ (f x - μ)² / (2v) + Σ h x` -/
+theorem sum_gauss {ι : Type} (d : List ι) (f h : ι → ℝ) (c μ v : ℝ) :
+    (d.map fun x => (c - (f x - μ) ^ 2 / (2 * v)) + h x).sum =
+      d.length * c - (d.map fun x => (f x - μ) ^ 2).sum / (2 * v) + (d.map h).sum := by
+  induction d with
+  | nil => simp
+  | cons x t ih => simp only [List.map_cons, List.sum_cons, List.length_cons, ih]; push_cast; ring
+
+/-- `Σ (y - μ)² = Σ y² - 2 μ Σ y + n μ²` -/
+theorem sum_sq_dev {ι : Type} (d : List ι) (f : ι → ℝ) (μ : ℝ) :
+    (d.map fun x => (f x - μ) ^ 2).sum =
+      (d.map fun x => f x ^ 2).sum - 2 * μ * (d.map f).sum + d.length * μ ^ 2 := by
+  induction d with
+  | nil => simp
+  | cons x t ih => simp only [List.map_cons, List.sum_cons, List.length_cons, ih]; push_cast; ring
+
+/-- the sample mean minimises the sum of squared deviations -/
+theorem sum_sq_dev_mean {ι : Type} (d : List ι) (f : ι → ℝ) (μ : ℝ) (hn : d ≠ []) :
+    (d.map fun x => (f x - μ) ^ 2).sum =
+      (d.map fun x => (f x - (d.map f).sum / d.length) ^ 2).sum + d.length * ((d.map f).sum / d.length - μ) ^ 2 := by
+  have hl : (d.length : ℝ) ≠ 0 := by
+    simp only [ne_eq, Nat.cast_eq_zero, List.length_eq_zero_iff]; exact hn
+  rw [sum_sq_dev d f μ, sum_sq_dev d f ((d.map f).sum / d.length)]
+  field_simp; ring
+
 end GSV.Lemmas.Norm
